@@ -1,10 +1,13 @@
-// cxxlower driver: Observable<int> (default equality) from the real header.
+// cxxlower driver: Observable<int> with the default equality and with an arbitrary (specification) equality.
 #include <tulz/observer/Observable.h>
+// specification equality: declared, never defined -> every call stays visible and its verdict is chosen by the verifier
+struct EqStub { bool operator()(const int &a, const int &b) const; };
 template class tulz::Observable<int>;
+template class tulz::Observable<int, EqStub>;
 namespace tulz_verif_inst {
-inline void use(tulz::Observable<int> &o, int v) {
+inline void use(tulz::Observable<int> &o, tulz::Observable<int, EqStub> &e, int v) {
     o = v; o += v; o -= v; o *= v; o /= v; ++o; o++; --o; o--;
-    o.apply([](int &x) { x = x + 1; });
-    (void) *o; (void) o.value();
+    e = v; e += v; e -= v; e *= v; e /= v; ++e; e++; --e; e--;
+    (void) *o; (void) o.value(); (void) *e; (void) e.value();
 }
 }
